@@ -8,6 +8,8 @@ mod jrn_lens;
 mod log_lens;
 mod mt_lens;
 mod perm_lens;
+mod rec_client;
+mod sdk_lens;
 mod srv;
 mod topic_lens;
 mod util;
@@ -102,6 +104,10 @@ fn main() {
         "crash" => {
             let l = crash_lens::CrashLens::new(&work);
             each_scenario::<crash_lens::Scenario>(&input, &mut tool_errors, |n, s| l.run_scenario(n, s, &mut out))
+        }
+        "sdk" => {
+            let l = sdk_lens::SdkLens::new(&work);
+            each_scenario::<sdk_lens::Scenario>(&input, &mut tool_errors, |n, s| l.run_scenario(n, s, &mut out))
         }
         "grp" => {
             let l = grp_lens::GrpLens::new(&work);
